@@ -2,6 +2,7 @@ import ScenicModel.Props.C06Resolve
 import ScenicModel.Props.C06Perm
 import ScenicModel.Props.C06Merge
 import ScenicModel.Props.C06Eval
+import ScenicModel.Props.C06Const
 
 /-!
 # C06 -- specifier resolution follows the documented priorities, whatever the order
@@ -15,6 +16,10 @@ Model: `ScenicModel/Model/Specifiers.lean`.  Theorems (all for arbitrary classes
 * `evaluate_ok`, `evaluate_total` (`Props/C06Eval.lean`) -- the evaluation loop itself: every dependency read
   is present and final, the source's assertion cannot fail, each property ends with the value of its
   modifier, else of its specifier;
+* `defaulted_iff`, `defaulted_perm_invariant`, `defaulted_final_value`, `constProps_iff` (`Props/C06Const.lean`) --
+  `_defaultedProperties` / `constProps`: defaulted iff the class has a default and no specifier names the
+  property, in every order; `override_spec`, `override_perm_invariant`, `override_refused_sound`,
+  `overrideCheck_none_iff` -- `_override` only touches what it names;
 * `dup_name_reported`, `final_reported` (any specifier, modifying or not; + `final_reported_normal`, `regression_final_by_modifier`), `tie_reported`, `missing_dep_reported`, `cycle_reported`,
   `error_kinds_sound`, `cycle_error_sound`, `resolve_never_fuel` -- the errors;
 * `resolve_perm_invariant`, `resolve2D_perm_invariant`, `builtin_single_modifier`,
